@@ -54,6 +54,37 @@ def runHistory : List HOp → St → Nat → List Segment → Nat → St × List
       let st := gc (st.ds.length + st.stmtDB.length + st.dbStmt.length + 1) st
       runHistory rest st st.log.length (segs ++ [segmentOf (st.log.drop mark)]) t
 
+def isPrepareEv : Ev → Bool
+  | .prepare .. => true
+  | _ => false
+
+/-- driver-level prepares per `run` / `runq` operation of a history (other operations
+    contribute nothing): what C09's reuse clause bounds - a run whose SQL is cached for the
+    pair prepares nothing -/
+def prepCounts : List HOp → St → Nat → List Nat
+  | [], _, _ => []
+  | op :: rest, st, t =>
+    let cnt (a b : St) : Nat := (b.log.filter isPrepareEv).length - (a.log.filter isPrepareEv).length
+    match op with
+    | .newS => prepCounts rest ((step st .newS).getD st) t
+    | .newD => prepCounts rest ((step st .newD).getD st) t
+    | .run s d shape =>
+      let st' := run st [.query t s d shape, .lookup t, .prepare t, .insert t, .exec t none]
+      cnt st st' :: prepCounts rest st' (t + 1)
+    | .mkq q s d shape => prepCounts rest ((step st (.query (1000 + q) s d shape)).getD st) t
+    | .runq q =>
+      let t' := 1000 + q
+      let st' := run st [.lookup t', .prepare t', .insert t', .exec t' none]
+      cnt st st' :: prepCounts rest st' t
+    | .dropS s => prepCounts rest ((step st (.dropS s)).getD st) t
+    | .dropD d => prepCounts rest ((step st (.dropD d)).getD st) t
+    | .gc => prepCounts rest (gc (st.ds.length + st.stmtDB.length + st.dbStmt.length + 1) st) t
+
+/-- C09, reuse clause on a sequential history with one pooled connection: no operation
+    prepares more often than the model (which prepares only on a cache miss) -/
+def holdsC09reuse (model obs : List Nat) : Bool :=
+  model.length != obs.length || (model.zip obs).all fun (m, o) => o ≤ m
+
 /-- cached (statement, db, shape) triples -/
 def St.pairs (st : St) : List (Nat × Nat × Nat) :=
   st.stmtDB.foldl (fun acc (s, row) =>
